@@ -34,6 +34,7 @@ RULE = (
     " non-uniform return edges (one return of a function only returns to"
     " a proxy)."
 )
+RULE += " 30% of the scenarios also carry two retarget_symbol_uses requests (chained A->B, B->C or converging), registered in permuted order."
 ASSUMPTIONS = [
     "a nondeterminism that needs one specific address collision may be missed",
     "absolute interval addresses after the final re-layout are compared as a separate facet (they are assigned by gtirb_layout iterating sets)",
